@@ -12,6 +12,7 @@ mod p_docs;
 mod p_md;
 mod p_gen;
 mod p_upd;
+mod p_updcli;
 mod p_yaml;
 mod p_render;
 mod p_env;
@@ -42,6 +43,7 @@ fn main() {
         "docs" => p_docs::main(&args[1..], &mut w),
         "gen" => p_gen::main(&args[1..], &mut w),
         "upd" => p_upd::main(&args[1..], &mut w),
+        "updcli" => p_updcli::main(&args[1..], &mut w),
         "yaml" => p_yaml::main(&args[1..], &mut w),
         "render" => p_render::main(&args[1..], &mut w),
         "envrun" => p_env::main(&args[1..], &mut w),
